@@ -39,6 +39,8 @@ type Options struct {
 	// Wrap, when set, receives the real posix backend and returns the backend the gateway uses
 	// (e.g. the posix backend with one method overridden by a recording stub).
 	Wrap func(backend.Backend) backend.Backend
+	// IAMCache: run the internal IAM service behind the gateway's account cache (the gateway's default).
+	IAMCache bool
 }
 
 type Cred struct{ Access, Secret string }
@@ -80,7 +82,7 @@ func Start(t testing.TB, o Options) *GW {
 	rootC := Cred{"rootaccess", "rootsecret"}
 	iam, err := auth.New(&auth.Opts{
 		RootAccount: auth.Account{Access: rootC.Access, Secret: rootC.Secret, Role: auth.RoleAdmin},
-		Dir:         iamdir, CacheDisable: true,
+		Dir:         iamdir, CacheDisable: !o.IAMCache, CacheTTL: 120, CachePrune: 3600,
 	})
 	if err != nil {
 		t.Fatalf("auth.New: %v", err)
@@ -127,6 +129,7 @@ func (g *GW) AddUser(access, secret string, role auth.Role) Cred {
 }
 
 type Resp struct {
+	Sent   map[string]string // the request headers as sent
 	Status int
 	Header http.Header
 	Body   []byte
@@ -151,6 +154,10 @@ type Req struct {
 	Time       time.Time
 	Payload    string // x-amz-content-sha256 value; default hex sha256 of the body
 	SignTarget string // when set: the target the signature is computed over (Target is what goes on the wire)
+	// CompactAuth: send the Authorization header with "," between its parts instead of ", " (both are accepted).
+	CompactAuth bool
+	// BodyFn, when set, builds the body once the request is signed (aws-chunked bodies chain from the request signature)
+	BodyFn func(seedSignature string, at time.Time) []byte
 }
 
 // Do signs (header SigV4, the repository's own signer with the gateway's settings) and sends the raw request.
@@ -207,6 +214,13 @@ func (g *GW) Do(r Req) *Resp {
 			g.T.Fatalf("sign: %v", err)
 		}
 		hdr["Authorization"] = hreq.Header.Get("Authorization")
+		if r.BodyFn != nil {
+			a := hdr["Authorization"]
+			r.Body = r.BodyFn(a[strings.LastIndex(a, "Signature=")+len("Signature="):], r.Time)
+		}
+		if r.CompactAuth {
+			hdr["Authorization"] = strings.ReplaceAll(hdr["Authorization"], ", ", ",")
+		}
 	}
 	var b bytes.Buffer
 	fmt.Fprintf(&b, "%s %s HTTP/1.1\r\n", r.Method, r.Target)
@@ -238,7 +252,7 @@ func (g *GW) Do(r Req) *Resp {
 	}
 	defer res.Body.Close()
 	body, _ := io.ReadAll(res.Body)
-	return &Resp{Status: res.StatusCode, Header: res.Header, Body: body}
+	return &Resp{Sent: hdr, Status: res.StatusCode, Header: res.Header, Body: body}
 }
 
 // Convenience wrappers.
